@@ -499,3 +499,32 @@ def check_arguments_before_bindings(prog: Program, res: Result, rule: str) -> No
             for c in inside:
                 res.fail(rule, file=fi.file, line=c.lineno, qualname=fi.qualname, construct=f"{fi.qualname}: `{norm(c, 40)}` inside `with {norm(w.items[0].context_expr, 30)}`", message=f"{fi.qualname} evaluates `{norm(c, 40)}` after pushing its own bindings: a name the tag binds (a keyword argument, the loop variable) shadows the caller's variable of that name inside the tag's own argument list - `{{% include 'p' with x as y, x: 'kw' %}}` binds y to 'kw', not to the caller's x", what=what)
     res.floor(rule, "with context.extend/loop blocks in render methods", n_with, 8)
+
+
+_DEFASSIGN_POSITIVE = """
+def f(args):
+    if args:
+        name = args[0]
+    elif len(args) > 1:
+        other = 1
+    return name
+"""
+
+
+def check_definite_assignment(prog: Program, res: Result, rule: str, *, scope: str = "all") -> None:
+    """No local variable is read on a path that has not bound it (UnboundLocalError is not a LiquidError and not an extraction
+    result). scope = 'all' (every function of liquid2) or 'extraction' (messages.py and the message()/messages() methods)."""
+    from sa.defassign import possibly_unbound
+
+    pos = possibly_unbound(ast.parse(_DEFASSIGN_POSITIVE).body[0])  # type: ignore[arg-type]
+    if len(pos) != 1 or pos[0][0].id != "name":
+        raise AnalysisError(f"{rule}: definite-assignment positive example no longer yields exactly one finding")
+    n_fn = 0
+    for fi in sorted(prog.all_functions(), key=lambda f: (f.file, f.node.lineno)):
+        if scope == "extraction" and not (fi.file == "liquid2/messages.py" or fi.name in ("message", "messages")):
+            continue
+        n_fn += 1
+        for x, why in possibly_unbound(fi.node):
+            res.fail(rule, file=fi.file, line=getattr(x, "lineno", fi.node.lineno), qualname=fi.qualname, construct=f"{fi.qualname}: `{x.id}` may be unbound", message=f"{fi.qualname} reads the local `{x.id}` on a path that never assigned it ({why}): UnboundLocalError, which is not a LiquidError, escapes", what=f"{fi.qualname}: every local is bound before it is read")
+    res.ok(rule, "liquid2/**" if scope == "all" else "liquid2/messages.py + message()/messages()", f"{n_fn} functions: every read of a local is reached only through a binding of it", "forward must-analysis over the statement CFG (sa/defassign.py); positive example matched once")
+    res.floor(rule, "functions analysed for definite assignment", n_fn, 900 if scope == "all" else 10)
